@@ -108,6 +108,8 @@ type veEnv struct {
 	slowOpenAfterFail time.Duration
 	failedSeen        map[string]bool
 	freezeOnTxOf      string
+	freezeOnPollOf    string
+	sentLogged        map[string]int // sent-log records written per (name, hash), across a restart
 	recoveryOvercount int
 	jam               bool // the receiver refuses every request
 }
@@ -133,6 +135,12 @@ func (e *veEnv) ev(kind, name, info string) {
 		// version is scanned, hashed and in the persisted cache, nothing of it is on the wire
 		e.freezeAt = n
 		e.freezeOnTxOf = ""
+	}
+	if e.freezeOnPollOf != "" && kind == "poll" && name == "ok" && strings.Contains(" "+info, " "+e.freezeOnPollOf+"=") {
+		// the sender dies while the answer to the poll that covers this file is on its way back: the file
+		// is sent, logged as sent, and not yet marked done
+		e.freezeAt = n
+		e.freezeOnPollOf = ""
 	}
 	if e.freezeAt > 0 && n == e.freezeAt {
 		e.frozen = true
@@ -282,6 +290,10 @@ func (l *veSentLog) Sent(f sts.Sent) {
 	if got < f.GetSize() {
 		l.e.sentEarly++
 	}
+	if l.e.sentLogged == nil {
+		l.e.sentLogged = map[string]int{}
+	}
+	l.e.sentLogged[f.GetName()+"|"+f.GetHash()]++
 	l.e.mu.Unlock()
 	l.e.ev("sentlog", f.GetName(), fmt.Sprintf("%d/%d", got, f.GetSize()))
 	l.FileIO.Sent(f)
@@ -606,6 +618,7 @@ type veScenario struct {
 	reuseFaultN       int
 	stopAfterMs       int           // the stop request arrives this long after start (wall clock), whatever the sender is doing
 	jam               bool          // the receiver refuses every request, for the whole run
+	crashOnPollOf     string        // the sender dies while the poll answer covering this file is on its way back
 	reuseCrash        bool          // ... and the sender dies when it is about to send the new version (then restarts)
 	mutate            string        // name of a file rewritten while queued
 	stopAfterTx       int           // stop at the k-th interface event counted from the first answer to a data request
@@ -703,7 +716,7 @@ func veRun(tmp string, sc veScenario) string {
 		crashed: make(chan bool, 1), block: make(chan bool),
 		faults: append([]veFault{}, sc.faults...), pollFault: append([]string{}, sc.pollFault...),
 		failHeadOf: sc.failHeadOf, failHeadN: sc.failHeadN, slowOpenAfterFail: sc.slowOpenAfterFail,
-		jam: sc.jam, freezeAt: sc.crashAt, freezeAfterTx: sc.crashAfterTx, stopAt: sc.stopAt, stopAfterTx: sc.stopAfterTx, stopAtPoll: sc.stopAtPoll}
+		jam: sc.jam, freezeOnPollOf: sc.crashOnPollOf, freezeAt: sc.crashAt, freezeAfterTx: sc.crashAfterTx, stopAt: sc.stopAt, stopAfterTx: sc.stopAfterTx, stopAtPoll: sc.stopAtPoll}
 	for _, d := range []string{e.out, e.cacheDir, e.stageDir, e.finalDir} {
 		os.MkdirAll(d, 0o755)
 	}
@@ -1175,6 +1188,13 @@ func veRun(tmp string, sc veScenario) string {
 	facts["staged_left"] = fmt.Sprint(staged)
 	e.mu.Lock()
 	facts["recovery_overcount"] = fmt.Sprint(e.recoveryOvercount)
+	twice := 0
+	for _, n := range e.sentLogged {
+		if n > 1 {
+			twice++
+		}
+	}
+	facts["sent_logged_twice"] = fmt.Sprint(twice)
 	e.mu.Unlock()
 	if staged > 0 {
 		facts["staged_names"] = strings.Join(stagedNames, ",")
@@ -1356,6 +1376,19 @@ func veGen(r *gen.Rand, id string, profile string) veScenario {
 		sc.goneWhileDown = true
 	case "crash":
 		sc.crashAt = 1 + r.Intn(45)
+		if len(sc.files) > 0 && r.Chance(1, 2) {
+			// a file last modified on an earlier day, at a LATER time of day than now: look-ups in the
+			// sent log that start at its modification time span a range of days that does not end on a
+			// whole number of days
+			nowT := time.Now().UTC()
+			midnight := time.Date(nowT.Year(), nowT.Month(), nowT.Day(), 0, 0, 0, 0, time.UTC).Add(24 * time.Hour)
+			sc.files[0].age = 48*time.Hour - midnight.Sub(nowT)/2
+			if r.Chance(2, 3) {
+				// ... and the sender dies while the poll answer for that file is on its way back
+				sc.crashAt = 100000
+				sc.crashOnPollOf = sc.files[0].name
+			}
+		}
 		if r.Chance(1, 3) {
 			sc.faults = append(sc.faults, veFault{kind: kinds[r.Intn(4)], at: r.Intn(2)})
 		}
